@@ -7,9 +7,11 @@ class C20(Spec):
     harness = "h_c20"
     required_theorems = ("C20.calcWork_antitone", "C20.recompact_value", "C20.recompact_idem",
                          "C20.big_roundtrip_partial", "C20.big_roundtrip_sharp", "C20.big_roundtrip_full_false",
-                         "C20.td_monotone", "C20.td_antitone")
-    partial = ("C20.big_roundtrip_partial",)
-    refuted = ("C20.big_roundtrip_full_false",)
+                         "C20.td_monotone", "C20.td_antitone", "C20.calcWork_antitone_needs_positive")
+    partial = ("C20.big_roundtrip_partial: byte length <= 254",
+               "C20.calcWork_antitone / C20.td_antitone: hypothesis 'the smaller target is positive' (a non-positive target has work 0 by definition)")
+    refuted = ("C20.big_roundtrip_full_false: 2^2039 (255-byte integers overflow the 8-bit exponent)",
+               "C20.calcWork_antitone_needs_positive: target 0 (work 0) <= target 1 (work 2^255)")
     level_text = ("Lean theorems about the model of CompactToBig/BigToCompact/CalcWork (work antitone in the target; "
                   "re-compaction canonical; round trip keeps the mantissa precision) for all inputs; the model is tied to "
                   "common/difficulty by a byte-exact differential run over every exponent x sign x mantissa edges, random "
